@@ -4,6 +4,7 @@ pub mod c03;
 pub mod c05;
 pub mod c07;
 pub mod c08;
+pub mod c09;
 pub mod c13;
 pub mod c20;
 
@@ -32,6 +33,7 @@ dispatch! {
     "C05" => c05,
     "C07" => c07,
     "C08" => c08,
+    "C09" => c09,
     "C13" => c13,
     "C20" => c20,
 }
